@@ -2,14 +2,14 @@
    C03: Set stores the value at the path and changes nothing else.
    [set_method] is the model of the emitted Set / SetWithBuffer on the value behind a *T
    (Model/SetEmit.v: writeNode in set mode AFTER the six fix: commits of findings/C03.txt;
-   [set_method_old] is the emitter before the last of them, 2f8b339),
+   [set_method_old] is the emitter before the last of them, e955906),
    [nav] the native navigation (Spec/Nav.v), [offb E] the frame relation of Spec/SetSpec.v:
    everything off the path is what it was (containers and entries on the path possibly created),
    the element the path ends at related by E.  [E_end s buf] is what happens there: a scalar,
    string or bytes element holds the leaf conversion of the assigned value (nothing behind a nil
    pointer), a container is what it was or has been created.  [sound_set] is the decidable
    fragment: no []byte and no map held by value as slice element, no []byte as map value.  (A map
-   entry that is a struct held by value may have any fields since 2f8b339.) *)
+   entry that is a struct held by value may have any fields since e955906.) *)
 From Coq Require Import List Bool String Ascii ZArith Arith Floats.SpecFloat.
 From Verif Require Import Util Ints Floats Node GoSrc Value Outcome Nav LCSound SetEmit SetSpec SetSound SetMono SetGet SetHist SetHistSound Shapes GenUnits GenC03 GenC03x GenC03b.
 From Verif Require Buffer ConvTexts.
@@ -114,7 +114,7 @@ Theorem C03_history_texts_stable : forall cs pre size k isstr d e,
 Proof. exact ConvTexts.conv_texts_stable. Qed.
 Print Assumptions C03_history_texts_stable.
 
-(* What the emitter did BEFORE fix 2f8b339 ([set_method_old]; finding nested_in_map_entry, now fixed):
+(* What the emitter did BEFORE fix e955906 ([set_method_old]; finding nested_in_map_entry, now fixed):
    below a non-scalar field of a struct that is held BY VALUE in a map the assignment went to a copy
    of the entry that was never stored back - the call returned nil and the object was what it had
    been, although the text fixes another one.  The repaired emitter ([set_method]) keeps the
